@@ -294,6 +294,9 @@ func (g *gen) newSlice(e *elem) *slv {
 	case 1: // make(len, cap)
 		s.len = g.Int(0, 3, "mk-len")
 		s.cap = s.len + g.Int(0, 3, "mk-extra")
+		if s.cap == s.len && g.Chance(2, 3, "mk-extra-force") {
+			s.cap = s.len + g.Int(1, 2, "mk-extra2") // spare capacity is where len and cap bounds differ
+		}
 		g.Tag("ctor:make3")
 		l := g.intOnly(s.len, true, "mklen")
 		c := g.intOnly(s.cap, true, "mkcap")
